@@ -675,6 +675,9 @@ class StmtMixin:
             items = list(coll.z.keys()) if isinstance(coll.z, dict) else list(coll.z)
             yield from self.unrolled(s, items, st)
             return
+        if coll.ty is T.PY and isinstance(coll.z, tuple) and len(coll.z) == 2 and coll.z[0] == "pytuple":
+            yield from self.unrolled(s, list(coll.z[1]), st, wrapped="values")
+            return
         if coll.ty is T.PY and isinstance(coll.z, tuple) and coll.z and coll.z[0] == "pyitems":
             yield from self.unrolled(s, [("pytuple", (self.lift(k), self.lift(v))) for k, v in coll.z[1]], st,
                                      wrapped=True)
@@ -758,7 +761,7 @@ class StmtMixin:
                     yield Outcome("next", st)
                 return
             sink = []
-            v = V(T.PY, items[i]) if wrapped else self.lift(items[i])
+            v = items[i] if wrapped == "values" else (V(T.PY, items[i]) if wrapped else self.lift(items[i]))
             for b in self.assign(s.target, v, st, sink):
                 for o in self.exec_block(s.body, b):
                     if o.kind in ("next", "continue"):
